@@ -312,8 +312,8 @@ CHECKS.update({
         note="Trusted: ring/model/evalexpr and vmc/c11_model.py, which reads "
              "only tensor() and expand_itmd() at the default indices (the "
              "definitions themselves are C12's subject). Bounded: (2,2) spin "
-             "orbitals (thorough adds (3,3) for second-order synthetic "
-             "inputs), <=2 intermediates per term, third order expansion and "
+             "orbitals (the thorough tier enumerates the larger input "
+             "lists with the quick tier's per-input request lists), <=2 intermediates per term, third order expansion and "
              "once-expanded factoring only; completeness of factorisation is "
              "not checked; 240 s per-operation timeout."),
     "C14": dict(
@@ -437,7 +437,7 @@ def main():
         "notes": "All checks: cwd=/verif, interpreter /venv/bin/python, "
                  "PYTHONHASHSEED owned (VERIF_SEED mod 16). Known findings: "
                  "/verif/known_findings.json. Seeded property-breaking changes "
-                 "and which check catches them: /verif/seeded, DESIGN.md section 6.",
+                 "and which check catches them: /verif/seeded, DESIGN.md section 8.4. Workers run under an address-space limit (VERIF_MEM_GB, default 10): cases exceeding it or their time limit are reported as caps in the evidence.",
     }
     with open(os.path.join(HERE, "MANIFEST.json"), "w") as f:
         json.dump(man, f, indent=1)
